@@ -305,7 +305,7 @@ pub fn run(ctx: &RunCtx) -> i32 {
     let secrets = secrets(ctx.seed);
     let n_groups = ctx.tier.sz(120, 12_000);
     let budget = ctx.tier.sz(160, 700) as usize;
-    let total = par_run(ctx.workers, n_groups, |j, r| {
+    let mut total = par_run(ctx.workers, n_groups, |j, r| {
         let rt = new_runtime();
         let mut g = Rng::new(derive_seed(ctx.seed, "C09", j));
         for (kind, req, auth, tokens) in logical_requests(&mut g, &secrets) {
@@ -338,11 +338,56 @@ pub fn run(ctx: &RunCtx) -> i32 {
             r.sample(&kind, || json!({"kind": kind, "method": base.req.method, "uri": base.req.uri, "body_len": len}));
         }
     });
+    // overlap leg: the same logical requests, several of them in flight at once on one service (DESIGN 9.2)
+    let n_overlap = ctx.tier.sz(600, 20_000);
+    let over = par_run(ctx.workers, n_overlap, |j, r| {
+        let rt = new_runtime();
+        let mut g = Rng::new(derive_seed(ctx.seed, "C09-overlap", j));
+        let prt = if j % 4 == 3 { Some(new_parallel_runtime(4)) } else { None };
+        let (kinds, reqs) = overlap_group(&mut g, &secrets);
+        judge_overlap(r, "C09", &rt, prt.as_ref(), &auth_cfg(&secrets, HostCfg::None), &kinds, &reqs, g.u64());
+    });
+    total.merge(over);
     finish(ctx, &meta, &total)
+}
+
+/// 2..8 logical requests of the four body kinds (valid and invalid ones, of two signers and anonymous), each under a
+/// random partition and Pending schedule
+pub fn overlap_group(g: &mut Rng, secrets: &HashMap<String, String>) -> (Vec<String>, Vec<RawRequest>) {
+    let mut pool = logical_requests(g, secrets);
+    pool.extend(logical_requests(g, secrets));
+    // header-signed requests of the second signer next to the first one's
+    for (i, ak) in [AK, crate::monitor::c05::AK2, AK, crate::monitor::c05::AK2].iter().enumerate() {
+        let n = g.usize_below(200);
+        let mut q = RawRequest::new("PUT", &format!("/bucket1/overlap-{i}")).header("host", "h.example").header("content-length", &n.to_string());
+        q.body = g.bytes(n);
+        let p = V4Params { access_key: (*ak).into(), secret: secrets[*ak].clone(), amz_date: unix_to_amz_date(now_unix()), region: "us-east-1".into(), service: "s3".into() };
+        let digest = sha256_hex(&q.body);
+        v4_sign_header(&mut q, &p, &digest, &[]);
+        pool.push((format!("signed-digest-put/signer-{}", i % 2 + 1), q, true, vec![]));
+    }
+    g.shuffle(&mut pool);
+    let k = 2 + g.usize_below(7);
+    let mut kinds = Vec::new();
+    let mut reqs = Vec::new();
+    for (kind, mut req, _, tokens) in pool.into_iter().take(k) {
+        let len = req.body.len();
+        let parts = partitions(g, len, &tokens, 8);
+        let (_, cuts) = g.pick(&parts).clone();
+        let scheds = schedules(g, cuts.len() + 1);
+        let (_, pendings, at_end, immediate) = g.pick(&scheds).clone();
+        req.framing = Some(Framing { cuts, pendings, pending_at_end: at_end, immediate_wake: immediate, error_at: None, stall_at: None });
+        kinds.push(kind);
+        reqs.push(req);
+    }
+    (kinds, reqs)
 }
 
 pub fn replay(v: &Value) -> i32 {
     let w = &v["witness"];
+    if w["kind"] == "overlap" {
+        return super::replay_verdict("C09", &replay_overlap("C09", w));
+    }
     let mut r = Report::new();
     let rt = new_runtime();
     let case: Case = serde_json::from_value(w["case"].clone()).unwrap_or_else(|e| harness_error(&format!("bad case: {e}")));
